@@ -6,6 +6,9 @@ V = os.path.dirname(os.path.dirname(os.path.abspath(__file__)))
 # id -> (technique, level text, level note, design ref)
 PROOF_NOTE = "Lean 4.33 kernel; axioms propext/Quot.sound/Classical.choice only (audited per run); translator go/extract and the layout interpreter Model/Layout.lean validated against the real IEncode/IDecode by the correspondence run; Go runtime/stdlib modelled (DESIGN.md 2.6)."
 CLAIMED = {
+ "C04": ("Lean 4 theorems on a model of the non-blocking and blocking extractors over an abstract stream: framing exactness under every chunking by induction over the chunk list with the invariant `buffer ++ future = undelivered frames ++ tail`, incomplete-consumes-nothing, refusal of prefixes < 4, no partial frame from the blocking extractor; correspondence through a contract-faithful ConnReader with scheduled arrivals, truncation and injected read errors",
+         "Unbounded proof for any number of frames of any length and any way of cutting the stream; the model is compared with both codecs on streams of 1..6 frames under every single cut, every pair of cuts for short streams, octet-by-octet delivery, random multi-cuts, every truncation point with and without read errors, and malformed prefixes 0..3.",
+         PROOF_NOTE + " The ConnReader contract (Peek/Discard/Size/Read) is as documented in codec/codec.go and implemented by the harness.", "DESIGN.md 4/C04"),
  "C16": ("Lean 4 theorems by induction on a hand model of the two SMPP and two SMGP parsers and of serialisation (fuel-bounded loops mirroring the Go loops): parse∘serialise for any emission order, agreement of the entry points on every well-formed triplet sequence with duplicates, no-fabrication for arbitrary octets, consistent truncation of over-long values; correspondence with all four Go entry points",
          "Unbounded proofs on the model for sets/sequences of any size and values of any length; the model is compared with ReadTLVs, ReadTLVs1, ReadOptions and ParseOptions on serialised sets (incl. 65531..70000-octet values), shuffled duplicate sequences, all strings of <= 2 octets and mutated triplet strings. Map iteration order is the adversary (emission order is a parameter). no-fabrication is proved for the slice-based parser and checked on the implementation for the reader-based ones.",
          PROOF_NOTE, "DESIGN.md 4/C16"),
